@@ -132,11 +132,12 @@ func parseValue(d *jx.Decoder) (pcommon.Value, bool, error) {
 			return val, false, err
 		}
 		if num.IsInt() {
-			n, err := num.Int64()
-			if err != nil {
-				return val, false, err
+			if n, err := num.Int64(); err == nil {
+				val = pcommon.NewValueInt(n)
+			} else {
+				// Well-formed integer that does not fit int64: keep its exact text.
+				val = pcommon.NewValueStr(num.String())
 			}
-			val = pcommon.NewValueInt(n)
 		} else {
 			n, err := num.Float64()
 			if err != nil {
